@@ -55,6 +55,20 @@ def _case(draw):
         form = draw(st.sampled_from(["{z}", "[{z}]", "({z})", "see {z} there"]))
         ln = draw(st.sampled_from([l for l in a["lines"] if "words" in l]))
         ln["words"].append(W(form.format(z=b["zid"]), *([("links", "zid:" + b["zid"])] if form == "[{z}]" else [])))
+    # a link / URL fragment whose id equals the NAME of a tag the note inherits ([#area], [@ctx]):
+    # it is not that tag, so the inherited tag must still be made explicit
+    for rel, pg in d.items():
+        inherited = [(m[0], m[1]) for w in pg["title"] for m in w["m"] if m[0] in ("areas", "contexts")]
+        for sec in pg["secs"]:
+            inherited += [(m[0], m[1]) for w in sec["header"] for m in w["m"] if m[0] in ("areas", "contexts")]
+        its = list(P.iter_items(pg))
+        if inherited and its and draw(st.booleans()):
+            kind_, name = draw(st.sampled_from(inherited))
+            it = draw(st.sampled_from(its))
+            ln = draw(st.sampled_from([l for l in it["lines"] if "words" in l]))
+            if name.replace("_", "a").isalnum() and not re.fullmatch(r"P\d|o|x|\d+", name):
+                w = draw(st.sampled_from([W(f"[#{name}]", ("links", "global:" + name)), W(f"[@{name}]", ("links", "ref:" + name))]))
+                ln["words"].append(w)
     moves = []
     for rel, it in items:
         moves.append({"zid": it["zid"], "dest": draw(st.sampled_from(DEST_KINDS)),
